@@ -67,6 +67,26 @@ def main():
                         r = c.post("/%s/run-steps" % iid, json={"settings": o["settings"], "numberSteps": o["n"]})
                     elif op == "stream":
                         r = c.post("/%s/stream-steps" % iid, json={"settings": o["settings"]})
+                    elif op == "stream_cut":
+                        kw = {} if o["settings"] is None else {"json": {"settings": o["settings"]}}
+                        r0 = c.open("/%s/stream-steps" % iid, method="POST", buffered=False, **kw)
+                        parts = []
+                        it = iter(r0.response)
+                        for _ in range(o["chunks"]):
+                            try:
+                                ch = next(it)
+                            except StopIteration:
+                                break
+                            parts.append(ch if isinstance(ch, str) else ch.decode())
+                        r0.close()
+
+                        class _R:
+                            status_code = r0.status_code
+
+                            @staticmethod
+                            def get_data(as_text=True):
+                                return "".join(parts)
+                        r = _R
                     elif op == "results":
                         r = c.get("/%s/session-results" % iid)
                     elif op == "flat":
